@@ -121,7 +121,9 @@ def triage(unit, units, res, prop, tier='quick'):
                 return {'verdict': 'undecided', 'replay': path,
                         'reason': 'extraction-fidelity: verifier counterexample does not reproduce on the real code (see %s)' % path}
         path = write_replay(prop, unit, res, body + '\nverifier output with counterexample trace:\n' + tr['out'][-30000:])
-        return {'verdict': 'violation', 'replay': (nat or {}).get('file') or path, 'failing_input': bool(vals) or ('Trace for' in tr['out']), 'reason': 'refuted (loop-free)'}
+        # an abstracting rendering (frame / guard / size units) yields a PATH through the function, not an input of the real code
+        has_input = (bool(vals) or ('Trace for' in tr['out'])) and not unit.get('abstract')
+        return {'verdict': 'violation', 'replay': (nat or {}).get('file') or path, 'failing_input': has_input, 'reason': 'refuted (loop-free)'}
     if blog is None:
         verdict, blog = bounded_recheck(unit, units, outdir)
     if verdict == 'proved':
